@@ -842,6 +842,50 @@ func (x *extractor) factsAds() {
 	}
 	x.set("ads_keep_test", keep)
 	x.set("ads_tombstones", tomb)
+	// where an advertisement gets its time: when the listener is seen to exist (the collection, under the listener lock)
+	stamp := "unknown"
+	if fd := x.fn(netceptorGo, "Netceptor", "sendServiceAds"); fd != nil {
+		collect := "collect:unstamped"
+		var lockPos, unlockPos, litPos token.Pos
+		ast.Inspect(fd, func(n ast.Node) bool {
+			switch v := n.(type) {
+			case *ast.CallExpr:
+				switch x.str(v.Fun) {
+				case "s.listenerLock.RLock":
+					lockPos = v.Pos()
+				case "s.listenerLock.RUnlock":
+					unlockPos = v.Pos()
+				}
+			case *ast.KeyValueExpr:
+				if x.str(v.Key) == "Time" && x.str(v.Value) == "time.Now()" {
+					litPos = v.Pos()
+				}
+			}
+			return true
+		})
+		if litPos != 0 {
+			collect = "collect:Time=time.Now()"
+			if lockPos != 0 && lockPos < litPos && litPos < unlockPos {
+				collect += ",under-listenerLock"
+			}
+		}
+		send := "send:unknown"
+		if fs := x.fn(netceptorGo, "Netceptor", "sendServiceAd"); fs != nil {
+			send = "send:unstamped"
+			ast.Inspect(fs, func(n ast.Node) bool {
+				if as, ok := n.(*ast.AssignStmt); ok {
+					for _, l := range as.Lhs {
+						if strings.HasSuffix(x.str(l), ".Time") {
+							send = "send:stamps-" + x.str(l)
+						}
+					}
+				}
+				return true
+			})
+		}
+		stamp = collect + ";" + send
+	}
+	x.set("ads_stamp", stamp)
 	x.set("ads_relay", relay)
 }
 
